@@ -405,4 +405,12 @@ def rule_totals_state(ctx):
                         lambda i: any(t in i.construct for t in ("_flops", "_write", "_sizes", "_track_")), 3)
 
 
-RULES = [rule_prov, rule_mult, rule_leafcount, rule_multpair, rule_exec, rule_peak, rule_intsize, rule_maxcount, rule_totals_state, rule_intcost]
+def rule_arith(ctx):
+    """Shared with C04-ARITH: after slicing, the reported per-step and total figures are the definitional ones."""
+    from .c04 import rule_arith as src
+
+    return C.reuse_rule(ctx, src, "C04-ARITH", "C03-ARITH",
+                        "slicing rescales the reported figures by the definitional factors", lambda i: True, 3)
+
+
+RULES = [rule_arith, rule_prov, rule_mult, rule_leafcount, rule_multpair, rule_exec, rule_peak, rule_intsize, rule_maxcount, rule_totals_state, rule_intcost]
